@@ -65,6 +65,8 @@ class Env:
     def _draw(self, shape, lo, hi, kind):
         lo = -2.0 if lo is None else lo
         hi = 2.0 if hi is None else hi
+        if lo > 0 and hi / lo > 1e3:
+            return np.exp(self.rng.uniform(np.log(lo), np.log(hi), size=shape))
         return self.rng.uniform(lo, hi, size=shape)
 
     def real(self, name, shape, lo=None, hi=None, dtype=np.float64, integer=False):
@@ -462,8 +464,11 @@ class Env:
             pins = []
             for (v, lo, hi, integer) in scal:
                 if rng.uniform() < frac:
-                    x = rng.uniform(lo, hi)
-                    val = Fraction(int(round(x))) if integer else Fraction(x).limit_denominator(64)
+                    if lo > 0 and hi / lo > 1e3:
+                        x = float(np.exp(rng.uniform(np.log(lo), np.log(hi))))
+                    else:
+                        x = rng.uniform(lo, hi)
+                    val = Fraction(int(round(x))) if integer else (Fraction(x).limit_denominator(64) if abs(x) >= 0.05 else Fraction(x).limit_denominator(10**9))
                     if val < Fraction(lo).limit_denominator(10**9) or val > Fraction(hi).limit_denominator(10**9):
                         val = Fraction(lo + hi).limit_denominator(64) / 2
                     pins.append(v == z3.RealVal(str(val)))
